@@ -570,7 +570,7 @@ ID_POOL = [0, 1, 2, 3, 4, 5, 7, 9, -1, 12]
 KINDS = [('SetParent', 12), ('SetChildren', 9), ('SetLinks', 8), ('ChAppend', 9), ('ChRemove', 3), ('ChInsert', 8),
          ('ChMove', 8), ('ChSort', 4), ('ChReorder', 4), ('ChRemoveAll', 2), ('LnAppend', 5), ('LnRemove', 3),
          ('LnRemoveAll', 2), ('OpFloordiv', 9), ('OpShift', 7), ('LstShift', 5), ('LstSetParent', 2), ('WbsRemove', 2),
-         ('WbsRemoveAll', 2), ('SetEst', 1), ('SetPrio', 2), ('DeepLink', 5), ('SortNone', 3), ('Promote', 3)]
+         ('WbsRemoveAll', 2), ('SetEst', 1), ('SetPrio', 2), ('DeepLink', 5), ('SortNone', 3), ('Promote', 3), ('Diamond', 3), ('DeepUndo', 4)]
 P_ILLEGAL = 0.43
 P_STALE = 0.21      # share of list calls that ASK for a pooled facade; ~15 % find one
 
@@ -908,6 +908,8 @@ class Gen:
                 ts = ts + [rng.choice(others)]
             else:
                 b = a = None
+        if ts and rng.random() < 0.15:                  # the same task twice in the selection (it is moved once)
+            ts = ts + [rng.choice(ts)] if rng.random() < 0.5 else [ts[-1]] + ts
         form = pick_form(rng, ts)
         if form not in ('single', 'none') and rng.random() < 0.1:
             ts = ts + [None] if rng.random() < 0.5 else [None] + ts
@@ -1237,8 +1239,90 @@ class Gen:
             rng.shuffle(vs)
         if not V.ok_children(t, vs):
             return None
+        if rng.random() < 0.3:
+            # ... and a task of another tree that carries the id of the promoted descendant joins in the same call:
+            # the id is still in use in the receiving tree, the call must be rejected
+            twins = [x for x in V.users() if V.tid(x) == V.tid(g) and x != g and V.root(x) != V.root(t) and V.par(x) is None]
+            if twins:
+                vs = vs + [rng.choice(twins)]
+                return ['SetChildren', t, vs], {'form': 'list', 'aim': 'promote-descendant-with-id-twin'}
         form = pick_form(rng, vs)
         return ['SetChildren', t, vs], {'form': form, 'aim': 'promote-descendant'}
+
+    def g_Diamond(self, V):
+        """aims at the dependency closure of a DIAMOND: t waits for [a, b, c] where a also waits for b (b is met twice and
+        is not the last one); then c is asked to wait for t - a cycle that must be rejected"""
+        rng = self.rng
+        users = V.users()
+        how = {'aim': 'diamond'}
+        for t in rng.sample(users, len(users)):
+            ps = V.preds(t)
+            if len(ps) >= 3:
+                for a in ps[:-1]:
+                    shared = [b for b in V.preds(a) if b in ps and ps.index(b) < len(ps) - 1]
+                    if shared:
+                        late = [c for c in ps[ps.index(shared[0]) + 1:] if c != a] or [ps[-1]]
+                        c = rng.choice(late)
+                        r = rng.random()
+                        if r < 0.4:
+                            return ['LnAppend', True, c, t], how
+                        if r < 0.7:
+                            return ['OpShift', False, t, [c]], how
+                        return ['SetLinks', True, c, V.preds(c) + [t]], how
+        # build: three unrelated tasks a, b, c; a waits for b; t waits for a, b, c (in an order that keeps b early)
+        free = [x for x in users if not V.preds(x) and not V.succs(x)]
+        rng.shuffle(free)
+        for t in free:
+            cand = [x for x in free if x != t and V.ok_links(True, t, [x])]
+            if len(cand) >= 3:
+                a, b, c = cand[:3]
+                if V.ok_links(True, a, [b]):
+                    order = rng.choice([[a, b, c], [b, a, c], [a, b, c]])
+                    self.queue = [(['SetLinks', True, t, order], dict(how, form='list')), self.g_Diamond]
+                    return ['LnAppend', True, a, b], how
+        return None
+
+    def g_DeepUndo(self, V):
+        """aims at the undo of a sequence of setter calls whose FIRST call moved a subtree three levels deep from a
+        free tree into a WBS (or out of one): the constructor with children=[deep tree] and a rejected later argument,
+        and the bulk parent assignment whose second element is rejected"""
+        rng = self.rng
+        users = V.users()
+        how = {'aim': 'deep-undo'}
+        deep = [x for x in users if V.par(x) is None and any(V.kids(c) for c in V.kids(x))]     # free root, depth >= 2 below it
+        inw = [p for p in users if any(p in V.sub(r) for r in V.wr)]
+        if not deep:
+            # build a free chain x > y > z
+            leaves = [x for x in users if V.par(x) is None and not V.kids(x)]
+            two = [(m, c) for m in users if V.par(m) is None for c in V.kids(m) if not V.kids(c)]
+            rng.shuffle(two)
+            for m, c in two:
+                gs = [g for g in leaves if g != m and V.ok_parent(g, c)]
+                if gs:
+                    self.queue = [self.g_DeepUndo]
+                    return ['SetParent', rng.choice(gs), c], dict(how, v=None)
+            pairs = [(c, m) for m in leaves for c in leaves if c != m and V.ok_parent(c, m)]
+            if pairs:
+                c, m = rng.choice(pairs)
+                self.queue = [self.g_DeepUndo]
+                return ['SetParent', c, m], dict(how, v=None)
+            return None
+        a = rng.choice(deep)
+        if inw and rng.random() < 0.6:
+            # constructor: parent inside a WBS, children=[a] (adopted with its whole subtree), then a rejected dependency
+            okp = [p for p in inw if V.ok_children(p, V.kids(p) + [a])] or inw
+            p = rng.choice(okp)
+            i = self.unused_id
+            bad = rng.choice([[p], [a]] + ([[V.anc(p)[0]]] if V.anc(p) and not V.hid(V.anc(p)[0]) else []))
+            if rng.random() < 0.5:
+                return ['NewTaskRel', i, 'a', p, [a], [], bad], dict(how, fch='list', fsu='list', fpr='list', pass_empty=False)
+            return ['NewTaskRel', i, 'a', p, [a], bad, []], dict(how, fch='list', fsu='list', fpr='list', pass_empty=False)
+        # bulk parent: [a, offender].parent = p with p inside a WBS; the offender is rejected after a was adopted
+        if inw:
+            p = rng.choice(inw)
+            off = [x for x in users if x != a and not V.ok_parent(x, p)] or [p]
+            return ['LstSetParent', [a, rng.choice(off)], p], dict(how)
+        return None
 
     def g_WbsRemove(self, V):
         rng = self.rng
